@@ -436,3 +436,10 @@ Definition distribute_src {R : CRing} (copies : bool) (sys : geometry R) (frs : 
   if copies then distribute_repaired sys frs else distribute_asis sys frs.
 Definition oniom_src {R : CRing} (copies : bool) (E : level -> geometry R -> R) (sys : geometry R) (frs : list (fragment R)) : res R :=
   do d <- distribute_src copies sys frs; Ok (oniom_simulate E (combine frs (snd d))).
+
+(* ---- DMETProblemDecomposition._default_optimizer.  K: numbers; [small x] stands for abs(x) < tol; [newton] is the
+        external root search (scipy.optimize.newton), an arbitrary function that may raise; [guard] is the fact regenerated
+        from the source: is the cost evaluated at the initial chemical potential first and that value returned when small? *)
+Definition default_optimizer_src {K : Type} (guard : bool) (small : K -> bool) (newton : (K -> K) -> K -> res K)
+           (cost : K -> K) (mu0 : K) : res K :=
+  if guard then (if small (cost mu0) then Ok mu0 else newton cost mu0) else newton cost mu0.
